@@ -68,16 +68,20 @@ static int load_index(const char *sub, vk_t *pool, int *pn)
 
 int vk_load(void) { return load_index("", vk_pool, &vk_n); }
 
-/* EC keys on curves outside JOSE (brainpool, small NIST curves): kept apart from the pool, used by C09 only */
-vk_t vk_extra[16];
-int vk_extra_n;
+/* keys kept apart from the pool (harnesses that iterate over the pool do not see them): EC keys on curves outside JOSE
+ * (brainpool, small NIST curves) and RSA keys whose modulus is not a whole number of octets (2050, 3001 bits) */
 int vk_load_extra(void) { return vk_extra_n ? vk_extra_n : load_index("extra/", vk_extra, &vk_extra_n); }
 
+vk_t vk_extra[16];
+int vk_extra_n;
 vk_t *vk_get(const char *name)
 {
 	for (int i = 0; i < vk_n; i++)
 		if (!strcmp(vk_pool[i].name, name))
 			return &vk_pool[i];
+	for (int i = 0; i < vk_extra_n; i++)
+		if (!strcmp(vk_extra[i].name, name))
+			return &vk_extra[i];
 	fprintf(stderr, "vk_get: no key %s\n", name);
 	exit(2);
 }
